@@ -10,7 +10,8 @@ TARGETS = ['SmppVerif.Props.C16']
 RULE = ('sessions with enquire_link_interval I in {2.5, 4, 10} and socket_timeout T in {1.5, 2, 5} (seconds, virtual): the SMSC answers '
         'the k-th enquire_link after a delay drawn from {0, 0.25, T-0.25, T+0.25, never}, and sends unsolicited PDUs '
         '(enquire_link, deliver_sm, an unknown command, an unparsable deliver_sm) at random milliseconds, in bursts, periodically '
-        'just below / just above I; exact ties (arrival exactly at I or I+T after a restart) are generated separately and judged '
+        'just below / just above I; the application submits messages meanwhile (periodically, once while a probe answer is awaited, '
+        'at random) which the SMSC answers or not - outbound traffic is no sign of life; exact ties (arrival exactly at I or I+T after a restart) are generated separately and judged '
         'by the predicate only. One model line per keeper run (several per session when the link is dropped and re-established). '
         'distinct-nontrivial = distinct (I, T, answer-delay pattern class, unsolicited pattern, number of keeper runs, dropped?, tie?)')
 TRUSTED = ['Lean 4.33.0 kernel', 'axioms: propext, Quot.sound, Classical.choice',
@@ -24,7 +25,7 @@ EXHAUSTIVE = {'quick': False, 'thorough': False}
 MS = 1000000          # quantum of the model lines: microseconds
 
 
-def run_session(rng, I, T, delays, unsolicited, horizon, tie=None):
+def run_session(rng, I, T, delays, unsolicited, horizon, tie=None, submits=(), sub_answer=True):
     """returns (keeper runs, events); a keeper run = dict(start, end, how, arrivals, probes, conn)"""
     s = Sim(enquire_link_interval=I, socket_timeout=T)
     runs = []
@@ -78,6 +79,13 @@ def run_session(rng, I, T, delays, unsolicited, horizon, tie=None):
                 conn.feed(pdu(5, 0, seqs['n'], b'\xff\xff'))        # unparsable deliver_sm
         for t, kind in unsolicited:
             s.at(t, send_unsolicited, kind)
+        # outbound application traffic: it is no sign of life of the peer (unless the peer answers it)
+        if submits:
+            from aiosmpplib.protocol import SubmitSm
+            if not sub_answer:
+                s.smsc.submit_status = lambda seq: None
+            for j, t in enumerate(submits):
+                s.at(t, s.enqueue, SubmitSm(short_message='out %d' % j, log_id='S%d' % j))
         s.at(horizon, s.stop)
         s.run(horizon + 50)
         ev = list(s.events)
@@ -161,12 +169,27 @@ def scenario(rng, tie=False):
         # distinct sub-millisecond offsets: no two arrivals are ever exactly I or I+T apart by accident
         uns = [(round(t, 3) + (j + 1) * 7e-6, kind) for j, (t, kind) in enumerate(uns)]
     uns.sort()
-    return I, T, dl, uns, horizon, (pat, up)
+    sp = rng.choice(('none', 'none', 'periodic', 'single', 'few'))
+    subs = []
+    if sp == 'periodic':
+        step = rng.choice((0.2, 0.7)) * I
+        t = step / 2
+        while t < horizon * 0.8:
+            subs.append(round(t, 3) + 0.000211)
+            t += step
+    elif sp == 'single':
+        subs = [round(I + rng.choice((0.1, 0.5)) * T, 3) + 0.000313]       # while the answer to the first probe is awaited
+    elif sp == 'few':
+        subs = sorted(round(rng.uniform(0.1, horizon * 0.8), 3) + 0.000417 + k * 1e-5 for k in range(rng.randrange(1, 5)))
+    if tie:
+        subs = []
+    answer = rng.random() < 0.5
+    return I, T, dl, uns, horizon, (pat, up, sp, answer if subs else None), subs, answer
 
 
 def cases_of(rng, tie=False):
-    I, T, dl, uns, horizon, cls = scenario(rng, tie)
-    runs, ev = run_session(rng, I, T, dl, uns, horizon)
+    I, T, dl, uns, horizon, cls, subs, answer = scenario(rng, tie)
+    runs, ev = run_session(rng, I, T, dl, uns, horizon, submits=subs, sub_answer=answer)
     out = []
     for r in runs:
         if r['end'] is None:
@@ -180,7 +203,8 @@ def cases_of(rng, tie=False):
                                         '-' if dropped is None else str(q(dropped - 1000.0)))
         fail = predicate(I, T, r, tie)
         sig = ('keeper', I, T, cls, len(runs), dropped is not None, tie)
-        inp = {'op': 'session', 'I': I, 'T': T, 'delays': dl, 'unsolicited': uns, 'horizon': horizon, 'tie': tie}
+        inp = {'op': 'session', 'I': I, 'T': T, 'delays': dl, 'unsolicited': uns, 'horizon': horizon, 'tie': tie,
+               'submits': subs, 'sub_answer': answer}
         out.append((line, real, sig, fail, inp))
     return out
 
@@ -197,7 +221,8 @@ def generate(rng, tier):
 
 
 def replay(inp):
-    runs, ev = run_session(None, inp['I'], inp['T'], inp['delays'], [tuple(u) for u in inp['unsolicited']], inp['horizon'])
+    runs, ev = run_session(None, inp['I'], inp['T'], inp['delays'], [tuple(u) for u in inp['unsolicited']], inp['horizon'],
+                           submits=inp.get('submits', ()), sub_answer=inp.get('sub_answer', True))
     worst = None
     for r in runs:
         if r['end'] is None:
